@@ -762,6 +762,9 @@ func runClusterCase(rng *rand.Rand, thorough bool, out *bufio.Writer, st *stats,
 		case 2:
 			runPromotionLitmus(rng, out, st, caseNo)
 			return
+		case 3:
+			runTransferLitmus(rng, out, st, caseNo)
+			return
 		}
 	case 2:
 		if rng.Intn(4) == 0 {
@@ -2011,6 +2014,99 @@ func runPromotionLitmus(rng *rand.Rand, out *bufio.Writer, st *stats, caseNo int
 		}
 	}
 	h.rec("HEALALL %d", h.now())
+	h.rec("Q %d", h.now())
+	time.Sleep(15 * time.Second)
+	for k := 0; k < 3; k++ {
+		if l := c.leader(); l != nil {
+			c.apply(l, "a")
+		}
+		time.Sleep(300 * time.Millisecond)
+	}
+	time.Sleep(2 * time.Second)
+	c.wg.Wait()
+	c.dump("final")
+	c.mu.Lock()
+	c.stopped = true
+	c.mu.Unlock()
+	for _, n := range c.nodes[1:] {
+		if n.up {
+			c.crash(n)
+		}
+	}
+	h.mu.Lock()
+	lines := h.lines
+	h.mu.Unlock()
+	fmt.Fprintf(out, "CL %d %d\n", caseNo, nsrv)
+	fmt.Fprintln(out, strconv.Itoa(len(lines))+" ; "+strings.Join(lines, " ; "))
+	st.Cases++
+	st.Distinct++
+}
+
+// runTransferLitmus (C12/C17): leadership is transferred twice in a row to a follower the leader
+// cannot reach (its replication routine is backing off), the leader then loses leadership, and later
+// leads again: it must accept writes (a transfer that can never finish must not leave the server
+// refusing writes "leadership transfer in progress" for ever).
+func runTransferLitmus(rng *rand.Rand, out *bufio.Writer, st *stats, caseNo int) {
+	h := &hist{t0: time.Now(), seenS: map[string]bool{}}
+	nsrv := 3
+	c := &cluster{rng: rng, h: h, blocked: map[[2]int]bool{}, holdMs: map[[2]int]int{}, delayMs: 1 + rng.Intn(3)}
+	_, c.inj = raft.NewInmemTransportWithTimeout("inj", 80*time.Millisecond)
+	c.nodes = []*cnode{nil}
+	var cfg raft.Configuration
+	for i := 1; i <= nsrv; i++ {
+		c.nodes = append(c.nodes, &cnode{id: i, addr: addrOf(i), st: &cstore{InmemStore: raft.NewInmemStore()}, snaps: &snapStore{c: &ctl{failAt: -1, crashAt: -1}}})
+		cfg.Servers = append(cfg.Servers, raft.Server{Suffrage: raft.Voter, ID: sidOf(i), Address: addrOf(i)})
+	}
+	h.rec("C %d 0", nsrv)
+	for _, n := range c.nodes[1:] {
+		c.startNodeP(n)
+	}
+	_ = c.nodes[1].r.BootstrapCluster(cfg).Error()
+	time.Sleep(500 * time.Millisecond)
+	var old *cnode
+	if l := c.leader(); l != nil {
+		old = l
+		f := c.nodes[1+rng.Intn(nsrv)]
+		for f.id == l.id {
+			f = c.nodes[1+rng.Intn(nsrv)]
+		}
+		c.mu.Lock()
+		c.blocked[[2]int{l.id, f.id}] = true
+		c.blocked[[2]int{f.id, l.id}] = true
+		c.mu.Unlock()
+		for k := 0; k < 6; k++ { // entries the follower misses; the leader's routine for it backs off
+			c.apply(l, "a")
+			time.Sleep(time.Duration(40+rng.Intn(60)) * time.Millisecond)
+		}
+		fid, fad := sidOf(f.id), f.addr
+		for k, m := 0, 2+rng.Intn(2); k < m; k++ {
+			c.callWith(l, "t", func(r *raft.Raft) error { return r.LeadershipTransferToServer(fid, fad).Error() })
+			time.Sleep(time.Duration(55+rng.Intn(40)) * time.Millisecond)
+		}
+		// the leader loses leadership
+		c.isolate(l.id, true)
+		time.Sleep(500 * time.Millisecond)
+		c.mu.Lock()
+		c.blocked = map[[2]int]bool{}
+		c.mu.Unlock()
+		c.h.rec("UNISOL %d %d", l.id, c.h.now())
+		st.Hist["transfer-litmus"]++
+	}
+	h.rec("HEALALL %d", h.now())
+	time.Sleep(1500 * time.Millisecond)
+	// the old leader is made leader again
+	for try := 0; try < 6 && old != nil; try++ {
+		l := c.leader()
+		if l == nil {
+			time.Sleep(300 * time.Millisecond)
+			continue
+		}
+		if l.id == old.id {
+			break
+		}
+		_ = l.r.LeadershipTransferToServer(sidOf(old.id), old.addr).Error()
+		time.Sleep(400 * time.Millisecond)
+	}
 	h.rec("Q %d", h.now())
 	time.Sleep(15 * time.Second)
 	for k := 0; k < 3; k++ {
